@@ -222,6 +222,12 @@ impl<'a> Ctx<'a> {
         }
     }
 
+    /// The watchdog slot of the thread running this shard: sweeps that use
+    /// their own worker threads bump `seq` to show that they are alive.
+    pub fn heartbeat(&self) -> Option<&'a Slot> {
+        self.slot
+    }
+
     /// Set the description of the current case without sequence bookkeeping
     /// (sweeps that enumerate internally, e.g. the state-space search).
     pub fn force_case(&mut self, desc: &str) {
